@@ -359,7 +359,7 @@ func c07MustError(w *core.W, text, kind string) {
 		return
 	}
 	if err == nil {
-		w.Violation("C07/syntax-error-not-reported/"+kind, fmt.Sprintf("the text contains an unbalanced parenthesis but parsing ended without an error after %d record(s)", records), wit)
+		w.Violation("C07/syntax-error-not-reported/"+kind, fmt.Sprintf("the text is malformed by construction (%s) but parsing ended without an error after %d record(s)", strings.SplitN(kind, "/", 2)[0], records), wit)
 	}
 }
 
@@ -370,6 +370,20 @@ func c07Prefixes(w *core.W, j int) {
 	ls := textLayouts()
 	cfg := c07Cfg{failAt: -1, file: c07Canary + "/zone.db"}
 	if j >= len(ls) {
+		// numbers that no 32-bit TTL can hold, in every place a TTL can stand: an error, not a small TTL
+		if j == len(ls) {
+			for _, big := range []string{"4294967296", "18446744073709551615", "18446744073709551616", "18446744073709551617", "36893488147419103233", "99999999999999999999999", "30500568904943w1s", "1w18446744073709551615s", "5124095576030432h", "4294967295s1s", "49710d6h28m16s"} {
+				for _, text := range []string{
+					"a.example. " + big + " IN A 192.0.2.1\n",
+					"a.example. IN " + big + " A 192.0.2.1\n",
+					"a.example. " + big + " A 192.0.2.1\n",
+					"$TTL " + big + "\na.example. IN A 192.0.2.1\n",
+					"$ORIGIN example.\n$GENERATE 1-2 h$ " + big + " IN A 192.0.2.1\n",
+				} {
+					c07MustError(w, text, "ttl-out-of-range")
+				}
+			}
+		}
 		// mnemonics of every known type followed by arbitrary tokens
 		k := 0
 		for t, name := range dns.TypeToString {
